@@ -163,7 +163,8 @@ def match_float(s: str, pos: int) -> int:
 
     if p < len(s) and s[p] == '.':
         p += 1
-        if (q := match_int(s, p)) > 0:
+        # NOTE: the fraction carries no sign ('1.+5' is not a number)
+        if p < len(s) and s[p].isdecimal() and (q := match_uint(s, p)) > 0:
             p = q
 
     if p < len(s) and s[p].lower() == 'e':
